@@ -760,6 +760,11 @@ def gated(mod, fn, max_paths=4000):
                         msgs = re.findall(r'c"([^"]*?)\\00"', " ".join(strs))
                         return ("effect", "throw", (("k", "typeinfo", mt.group(1)), ("k", "msg", msgs[0] if msgs else "")))
                     raise Unsupported("exception allocation without a recognisable __cxa_throw")
+                if sb.startswith("call") and "@llvm.ubsantrap" in sb:
+                    mk_ = re.search(r"@llvm\.ubsantrap\(i8 (\d+)\)", sb)
+                    return ("effect", "ubsantrap", (("k", "kind", mk_.group(1) if mk_ else "?"),))
+                if sb.startswith("call") and "@llvm.trap" in sb:
+                    return ("effect", "trap", ())
                 # a call that never returns (next instruction is `unreachable`): an effect leaf
                 nxt = ins[ins.index(l) + 1] if ins.index(l) + 1 < len(ins) else ""
                 if sb.startswith(("call", "invoke")) and strip(nxt).startswith("unreachable"):
@@ -773,11 +778,6 @@ def gated(mod, fn, max_paths=4000):
                             else:
                                 a.append(("k", ty, irmod._GLOB_RE.sub(lambda mm: irmod._global_content(mod, mm.group(0)), part)))
                         return ("effect", m.group(2), tuple(a))
-                if sb.startswith("call") and "@llvm.ubsantrap" in sb:
-                    mk_ = re.search(r"@llvm\.ubsantrap\(i8 (\d+)\)", sb)
-                    return ("effect", "ubsantrap", (("k", "kind", mk_.group(1) if mk_ else "?"),))
-                if sb.startswith("call") and "@llvm.trap" in sb:
-                    return ("effect", "trap", ())
                 raise Unsupported("impure instruction: " + sb[:80])
             env[res] = eval_instr(body, env)
         raise Unsupported("block without terminator")
